@@ -400,3 +400,60 @@ Section Top.
     split; auto.
   Qed.
 End Top.
+
+(* ------------------------------------------------ the tag map of a parsed source type *)
+Definition tag_entry (wt : bool) (f : sfield) : list (string * string) :=
+  if negb (sf_emb f) && negb (String.eqb (sf_tag f) "-") && negb (String.eqb (sf_tag f) "") && wt
+  then [(to_pascal_case (sf_name f), to_pascal_case (sf_tag f))] else [].
+
+Lemma top_step_tags e fuel wt acc f : forall x,
+  In x (snd (top_step e fuel wt acc f)) <-> In x (snd acc) \/ In x (tag_entry wt f).
+Proof.
+  intros x. destruct acc as [[pm fl] tm]. unfold top_step, tag_entry. destruct (sf_emb f); simpl.
+  - destruct (expand_if_struct e fuel [type_name (sf_ty f)] 1 (sf_ty f) (pm, fl)). simpl. tauto.
+  - destruct (String.eqb (sf_tag f) "-"); simpl; [tauto|].
+    destruct (negb (String.eqb (sf_tag f) "") && wt); simpl; tauto.
+Qed.
+
+Lemma fold_top_tags e fuel wt : forall fs acc x,
+  In x (snd (fold_left (top_step e fuel wt) fs acc)) <-> In x (snd acc) \/ exists f, In f fs /\ In x (tag_entry wt f).
+Proof.
+  induction fs as [|f fs IH]; intros acc x; simpl.
+  - split; auto. intros [H|(f & [] & _)]; auto.
+  - rewrite IH, top_step_tags. split.
+    + intros [[H|H]|(g & G & H)]; auto; right; eauto.
+    + intros [H|(g & [<-|G] & H)]; auto. right. eauto.
+Qed.
+
+Lemma tm_get_unique (l : tagmap) k v : In (k, v) l -> (forall v', In (k, v') l -> v' = v) -> tm_get l k = Some v.
+Proof.
+  induction l as [|[a b] l IH]; intros I U; [contradiction|]. simpl.
+  destruct (String.eqb_spec a k) as [->|N].
+  - f_equal. apply U. left; auto.
+  - destruct I as [E|I]; [inversion E; congruence|]. apply IH; auto. intros v' I'. apply U. right; auto.
+Qed.
+
+(* a top-level source field with a tag is found in the tag map under its own name when the
+   name is its own Pascal form (no `_`) and no other tagged field has that Pascal form *)
+Theorem parsed_tag e fuel n fs ps f :
+  lookup_decl e PSrc n = Some (DStruct fs) -> parse_fields e fuel PSrc n true = Some ps ->
+  In f fs -> sf_emb f = false -> sf_tag f <> "" -> sf_tag f <> "-" ->
+  to_pascal_case (sf_name f) = sf_name f ->
+  (forall g, In g fs -> sf_emb g = false -> sf_tag g <> "" -> sf_tag g <> "-" ->
+             to_pascal_case (sf_name g) = sf_name f -> sf_tag g = sf_tag f) ->
+  tm_get (p_tags ps) (sf_name f) = Some (to_pascal_case (sf_tag f)).
+Proof.
+  intros L P I Em T1 T2 Pn U. unfold parse_fields in P. rewrite L in P. inversion P; subst ps; clear P.
+  rewrite extract_top_eq.
+  pose proof (fold_top_tags e fuel true fs ([], [], [])) as FT.
+  destruct (fold_left (top_step e fuel true) fs ([], [], [])) as [[pm fl] tm]. simpl in *.
+  apply tm_get_unique.
+  - apply FT. right. exists f. split; auto. unfold tag_entry. rewrite Em. simpl.
+    destruct (String.eqb_spec (sf_tag f) "-"); [congruence|]. destruct (String.eqb_spec (sf_tag f) ""); [congruence|].
+    simpl. left. rewrite Pn. reflexivity.
+  - intros v' Iv. apply FT in Iv. destruct Iv as [[]|(g & G & Iv)]. unfold tag_entry in Iv.
+    destruct (sf_emb g) eqn:Eg; simpl in Iv; [contradiction|].
+    destruct (String.eqb_spec (sf_tag g) "-"); simpl in Iv; [contradiction|].
+    destruct (String.eqb_spec (sf_tag g) ""); simpl in Iv; [contradiction|].
+    destruct Iv as [E|[]]. inversion E. rewrite (U g G Eg); auto.
+Qed.
